@@ -575,24 +575,25 @@ func runC15(c *Ctx, tier string) {
 	}
 	// P3
 	c.borrow(func(t *Ctx) { runC12P3(t, "C12-P3") }, map[string]string{"C12-P3": "C15-P3"})
-	// E1
-	for _, spec := range []struct{ fn, callee string }{
-		{"(*lake.Branch).buildMergeObject", "lake/commits.Diff"},
-		{"(*lake.Branch).buildMergeObject", "(*lake/commits.Store).PatchOfPath"},
-	} {
-		fn := p.Func(spec.fn)
-		if fn == nil {
-			c.Undecided("C15-E1", spec.fn, "anchor does not resolve")
-			continue
+	// E1: every call of a conflict-detecting function in package lake
+	nE1 := 0
+	for _, callee := range []string{"lake/commits.Diff", "(*lake/commits.Store).PatchOfPath", "(*lake/commits.Patch).Revert", "(*lake/commits.Store).PatchOfCommit"} {
+		seenFn := map[*ssa.Function]bool{}
+		for _, s := range callSitesWhere(p, func(_ *ssa.CallCommon, n string) bool { return n == callee }) {
+			if p.PkgOf(s.fn) != "lake" || seenFn[s.fn] {
+				continue
+			}
+			// only functions that produce a commit object
+			if r := s.fn.Signature.Results(); r.Len() != 2 || (namedOf(r.At(0).Type()) != "lake/commits.Object" && namedOf(r.At(0).Type()) != "lake/commits.Patch") {
+				continue
+			}
+			seenFn[s.fn] = true
+			nE1++
+			checkErrReturned(c, "C15-E1", s.fn, callee)
 		}
-		checkErrReturned(c, "C15-E1", fn, spec.callee)
 	}
-	if fn := p.Func("(*lake.Branch).Revert"); fn != nil {
-		for _, an := range fn.AnonFuncs {
-			checkErrReturned(c, "C15-E1", an, "(*lake/commits.Patch).Revert")
-		}
-	} else {
-		c.Undecided("C15-E1", "(*lake.Branch).Revert", "anchor does not resolve")
+	if nE1 < 3 {
+		c.Undecided("C15-E1", "conflict-detecting calls", "fewer than 3 call sites of Diff/PatchOfPath/Revert/PatchOfCommit in commit-object / patch constructors of package lake")
 	}
 	runBranchCommitProtocol(c, "C15-E1", false)
 }
@@ -641,7 +642,8 @@ func checkErrReturned(c *Ctx, rule string, fn *ssa.Function, callee string) {
 				}
 			}
 		}
-		if u.escapes() && okRet {
+		_ = u
+		if okRet {
 			c.OK(rule, construct, call.Pos(), "error returned before any commit object is produced")
 		} else {
 			c.Fail(rule, construct, call.Pos(), "a commit object can be returned on a path where this call failed: the conflict is committed instead of aborting")
